@@ -19,6 +19,12 @@ class BlockList:
         self.update_neighbours(block)
 
     def grade_blocks(self) -> None:
+        # grading can be repeated (a second mesh.write(), for instance):
+        # start from ungraded wires or chops would be added to existing divisions again
+        for block in self.blocks:
+            for axis in block.axes:
+                axis.wires.reset()
+
         for block in self.blocks:
             block.grade()
 
